@@ -113,7 +113,7 @@ class BasicRender(object):
 
         # not serialized yet, time to guess what the requester wants
         if not isinstance(context, Sized):
-            return Response(unicode(context), mimetype="text/plain")
+            return Response(str(context), mimetype="text/plain")
         return self._serialize_to_resp(context, request, _route)
 
     __call__ = render_response
@@ -153,9 +153,9 @@ class BasicRender(object):
     def _guess_json(bytestr: bytes):
         if not bytestr:
             return False
-        elif bytestr[0] == b'{' and bytestr[-1] == b'}':
+        elif bytestr[:1] == b'{' and bytestr[-1:] == b'}':
             return True
-        elif bytestr[0] == b'[' and bytestr[-1] == b']':
+        elif bytestr[:1] == b'[' and bytestr[-1:] == b']':
             return True
         else:
             return False
